@@ -66,13 +66,31 @@ Lemma same_topo_refl s : same_topo s s = true.
 Proof. apply eq_listZ_refl. Qed.
 
 (* ------------------------------------------------------------------ the model's own traces *)
-Lemma hist_code_trace rs : forall s st cn,
+Definition no_nsbound_delete (rs : list req) : bool := forallb (fun r => negb (nsbound_delete r)) rs.
+
+(* on the model's own trace every clause holds except possibly 21 (a deletion accepted while pods
+   are bound through a namespace); without such deletions everything holds *)
+Lemma hist_code_trace rs : forall s st cn pend,
   WF s -> sorted_topo s -> ksorted st -> (cn = true -> NsOK st s) ->
-  hist_code s st cn rs (trace s rs) = 0.
+  (hist_code s st cn pend rs (trace s rs) = pend \/ hist_code s st cn pend rs (trace s rs) = 21)
+  /\ (no_nsbound_delete rs = true -> hist_code s st cn pend rs (trace s rs) = pend).
 Proof.
-  induction rs as [|r rs IH]; intros s st cn W S SS N; cbn [trace hist_code]; [reflexivity|].
+  induction rs as [|r rs IH]; intros s st cn pend W S SS N; cbn [trace hist_code]; [auto|].
   pose proof (WF_step s r W) as W'. pose proof (sorted_step s r S) as S'.
   rewrite (wf_code_complete _ (proj1 S') W'). cbn [Z.eqb negb].
+  assert (forall st' cn' pend', ksorted st' -> (cn' = true -> NsOK st' (step s r)) ->
+            (pend' = pend \/ pend' = 21) -> (negb (nsbound_delete r) = true -> pend' = pend) ->
+            (hist_code (step s r) st' cn' pend' rs (trace (step s r) rs) = pend
+             \/ hist_code (step s r) st' cn' pend' rs (trace (step s r) rs) = 21)
+            /\ (no_nsbound_delete (r :: rs) = true ->
+                hist_code (step s r) st' cn' pend' rs (trace (step s r) rs) = pend)) as K.
+  { intros st' cn' pend' SS' N' D1 D2.
+    destruct (IH (step s r) st' cn' pend' W' S' SS' N') as [[E|E] I2].
+    - split; [destruct D1 as [<-|D1]; [now left|right; congruence]|].
+      cbn [no_nsbound_delete forallb]. intro H. apply andb_true_iff in H. destruct H as [H1 H2].
+      rewrite (I2 H2). now apply D2.
+    - split; [now right|]. cbn [no_nsbound_delete forallb]. intro H.
+      apply andb_true_iff in H. destruct H as [H1 H2]. rewrite (I2 H2). now apply D2. }
   destruct (accepted s r) eqn:A; cbn [negb andb].
   - assert (match snd r with
             | Delete q => negb (delete_guard_ok s (step s r) (fst r) q)
@@ -81,22 +99,33 @@ Proof.
     { destruct r as [pods [q|o n|q]]; cbn [fst snd]; try reflexivity.
       apply negb_false_iff. apply delete_guard_okb; [exact W|exact (proj1 S)|exact A]. }
     rewrite DG.
+    assert ((if nsbound_delete r then 21 else pend) = pend
+            \/ (if nsbound_delete r then 21 else pend) = 21) as D1
+      by (destruct (nsbound_delete r); auto).
+    assert (negb (nsbound_delete r) = true -> (if nsbound_delete r then 21 else pend) = pend) as D2
+      by (destruct (nsbound_delete r); [discriminate|reflexivity]).
     destruct (cn && consistent1 st true r) eqn:C; cbn [andb].
     + apply andb_true_iff in C. destruct C as [-> C].
       assert (NsOK (store_step st true r) (step s r)) as N'.
       { rewrite <- A. apply NsOK_step; [now apply N|now rewrite A]. }
       rewrite ns_okb_complete; [|now apply ksorted_store_step|exact (proj2 (proj2 S'))|exact N'].
-      cbn [negb]. apply IH; auto. now apply ksorted_store_step.
-    + apply IH; auto; [now apply ksorted_store_step|discriminate].
-  - rewrite (reject_frame _ _ A) in *. rewrite same_topo_refl. cbn [negb].
+      cbn [negb]. apply K; auto. now apply ksorted_store_step.
+    + apply K; auto; [now apply ksorted_store_step|discriminate].
+  - pose proof (reject_frame _ _ A) as RF.
+    assert (same_topo s (step s r) = true) as ST by (rewrite RF; apply same_topo_refl).
+    rewrite ST. cbn [negb].
     unfold consistent1, store_step. cbn [negb orb]. rewrite andb_true_r.
+    assert (nsbound_delete r && false = false) as _ by apply andb_false_r.
     destruct cn; cbn [andb].
-    + rewrite ns_okb_complete; [|exact SS|exact (proj2 (proj2 S))|now apply N].
-      cbn [negb]. apply IH; auto.
-    + apply IH; auto.
+    + rewrite ns_okb_complete;
+        [|exact SS|exact (proj2 (proj2 S'))|rewrite RF; now apply N].
+      cbn [negb]. apply K; auto. rewrite RF. exact N.
+    + apply K; auto. discriminate.
 Qed.
 
-Lemma prop_code_trace rs : prop_code rs (trace init_topo rs) = 0.
+Lemma prop_code_trace g rs :
+  (prop_code g rs (trace (init_topo g) rs) = 0 \/ prop_code g rs (trace (init_topo g) rs) = 21)
+  /\ (no_nsbound_delete rs = true -> prop_code g rs (trace (init_topo g) rs) = 0).
 Proof.
   unfold prop_code. apply hist_code_trace.
   - apply WF_init.
